@@ -660,6 +660,26 @@ def uninterpreted_function_result(E, name, args, kwargs):
     out = new_input(E, n, t0.dtype, list(t0.shape), device=t0.device)
     out.fresh = True
     out.attrs["ufun"] = rec
+    E.ps.setdefault("ufun_outs", []).append((rec, out))
+    return out
+
+
+def _softmax(E, x, dim, half_to_float=False):
+    """aten._softmax: uninterpreted, with the one fact the callers rely on (A-TORCH-EW): every output element lies in [0, 1]
+    (finite inputs).  With half_to_float the result is float32."""
+    out = uninterpreted_function_result(E, "_softmax", (x, dim, half_to_float), {})
+    if half_to_float is True and x.dtype == "float16":
+        out.dtype = "float32"
+    if E.alg.floatmode != "R":
+        return out
+    base = out._elem
+
+    def elem(idx):
+        v = base(idx)
+        E.alg.side.append(("fact", z3.And(v >= 0, v <= 1)))
+        return v
+
+    out._elem = elem
     return out
 
 
@@ -903,6 +923,7 @@ ATEN = {
     "conv2d": lambda E, *a, **k: uninterpreted_function_result(E, "conv2d", a, k),
     "layer_norm": lambda E, *a, **k: uninterpreted_function_result(E, "layer_norm", a, k),
     "pad": lambda E, *a, **k: uninterpreted_function_result(E, "pad", a, k),
+    "_softmax": lambda E, *a, **k: _softmax(E, *a, **k),
 }
 
 
